@@ -100,7 +100,7 @@ type normalizeImpl interface {
 
 // Each will run a simple loop over the normalizers on the provided object.
 func (ns Normalizers) Each(doc any) {
-	if doc == nil {
+	if isNil(doc) {
 		return
 	}
 	if ns == nil {
@@ -124,7 +124,7 @@ func (ns Normalizers) Append(n Normalizer) Normalizers {
 // This supports arrays and slices, and will automatically normalize each
 // element in the list.
 func Normalize(list Normalizers, doc any) {
-	if doc == nil {
+	if isNil(doc) {
 		return
 	}
 	if n, ok := doc.(normalizeImpl); ok {
@@ -141,6 +141,16 @@ func Normalize(list Normalizers, doc any) {
 			list.Each(doc)
 		}
 	}
+}
+
+// isNil is true when the provided value is nil, or is an interface that
+// holds a nil pointer, such as a null row taken from a list.
+func isNil(doc any) bool {
+	if doc == nil {
+		return true
+	}
+	v := reflect.ValueOf(doc)
+	return v.Kind() == reflect.Ptr && v.IsNil()
 }
 
 // ValidateStructWithContext wraps around the standard validation.ValidateStructWithContext
